@@ -326,3 +326,143 @@ def run_C10(ctx):
 
 
 RUNNERS["C10"] = run_C10
+
+
+# ------------------------------------------------------------------ C13 (kernels = their Python definitions)
+def run_C13(ctx):
+    import json as _json
+    import kernels
+    built = ctx.build("opt")
+    q = ctx.quick()
+    r = ctx.tlc_phase("contract-instances", "KernelContract", dict(MaxN="4" if q else "5", MaxContent="3" if q else "4", EmitOn="TRUE"),
+                      invariants=["RoleInvariant"], init="KInit", next_="KNext", view="KView", action_constraints=["KEmit"],
+                      replay_cases=False)
+    inst = [_json.loads(l) for l in open(r.cases_path)]
+    res = kernels.run_all(built["kernels"], inst, ctx.seed, 120 if q else 1500, os.path.join(ctx.workdir, "kernels"),
+                          per_kernel_timeout=40 if q else 400)
+    compared = [x for x in res if x["comparisons"] > 0]
+    nospec = sorted(x["kernel"] for x in res if x.get("skipped"))
+    ncmp = sum(x["comparisons"] for x in res)
+    for x in res:
+        if x.get("crashed") or x.get("timeout"):
+            ctx.report({"act": "kernel", "kernel": x["kernel"], "args": (x.get("last") or {}).get("args"),
+                        "specialization": (x.get("last") or {}).get("kernel")}, None, None,
+                       "CRASH: %s in %s (access outside the extents given to the kernel, or it does not return)" %
+                       (x.get("crashed") or x.get("timeout"), (x.get("last") or {}).get("kernel")), phase="kernels")
+        for m in x["mismatches"]:
+            ctx.report({"act": "kernel", "kernel": x["kernel"], "specialization": m["specialization"], "args": m["args"]}, None, None,
+                       "kernel %s differs from its Python definition: %s" % (m["specialization"], m["why"]), phase="kernels")
+    ctx.replayed += ncmp
+    ctx.samples = [x["samples"][0] | {"kernel": x["kernel"]} for x in compared if x["samples"]][:4]
+    nprog = sum(x["specializations"] for x in compared)
+    return ctx.finish(level="translation_validation",
+                      extra={"programs": nprog, "disagreements_checked": ncmp,
+                             "kernels_compared": len(compared), "kernels_total": len(res),
+                             "accepted_argument_tuples": sum(x["accepted"] for x in res),
+                             "kernels_without_executable_definition_or_not_driven": nospec,
+                             "kernels_with_zero_accepted_tuples": sorted(x["kernel"] for x in res if not x.get("skipped") and x["accepted"] == 0)},
+                      rule="program = one kernel specialisation; case = (specialisation, argument tuple) with the tuple assembled from the role "
+                           "instances enumerated by TLC from KernelContract.tla and accepted by the Python definition running on "
+                           "index-recording proxies; outputs compared over the indices the definition writes, error status compared, "
+                           "guard page flush after every buffer",
+                      assumptions=["a tuple is inside a kernel's contract iff the role predicates hold and its Python definition runs to "
+                                   "completion without touching an index outside the given extents",
+                                   "30 kernels have no Python definition in kernel-specification.yml (placeholders) and 2 take "
+                                   "pointer-to-pointer arguments: they are listed, not compared"])
+
+
+import os  # noqa: E402
+RUNNERS["C13"] = run_C13
+
+
+# ------------------------------------------------------------------ C02 (results depend on the logical value only)
+def _c02_groups(ctx, cases_path, phase):
+    import glob
+    import json as _json
+    import replay as _replay
+    groups = {}
+    n = 0
+    for f in glob.glob(cases_path + ".obs.*"):
+        with open(f) as fh:
+            for line in fh:
+                rec = _json.loads(line)
+                n += 1
+                if rec["key"] is None:
+                    continue
+                groups.setdefault(_json.dumps(rec["key"]), []).append(rec)
+        os.unlink(f)
+    npairs = 0
+    multi = 0
+    import akcheck as _ak
+    for key, members in groups.items():
+        if len(members) < 2:
+            continue
+        multi += 1
+        # the outcome shared by most encodings is the reference; the deviating encodings are reported
+        outs = []
+        for mth in members:
+            for o in outs:
+                a, b = o[0], mth["out"]
+                if a[0] == b[0] and (a[0] != "ok" or _replay.values_equal(a[1], b[1])):
+                    o[1].append(mth)
+                    break
+            else:
+                outs.append([mth["out"], [mth]])
+        npairs += len(members) - 1
+        if len(outs) == 1:
+            continue
+        outs.sort(key=lambda o: -len(o[1]))
+        k = _json.loads(key)
+        ref_out, ref_members = outs[0]
+        for out, devs in outs[1:]:
+            for mth in devs:
+                why = "value differs: two encodings of %s give %s vs %s" % (k[3][:80], _json.dumps(out)[:120], _json.dumps(ref_out)[:120])
+                case = {"act": k[0], "args": _json.loads(k[1]), "from": mth["from"], "aux": mth.get("aux"), "fromty": k[2],
+                        "other_from": ref_members[0]["from"], "value": k[3], "exp": {"ok": mth.get("expok")}, "len": None}
+                if _ak.match_finding(ctx.findings, case, why) is None:
+                    # the recorded defect may sit in the encodings of the larger group
+                    for other in ref_members[:8]:
+                        alt = dict(case, **{"from": other["from"], "other_from": mth["from"]})
+                        if _ak.match_finding(ctx.findings, alt, why) is not None:
+                            case = alt
+                            break
+                ctx.report(case, None, None, why, phase=phase)
+    ctx.notes.append("%s: %d observations, %d groups with >=2 encodings of the same (type, value, operation), %d pairs compared"
+                     % (phase, n, multi, npairs))
+    return npairs
+
+
+def run_C02(ctx):
+    ctx.build("opt")
+    q = ctx.quick()
+    pairs = 0
+    consts = session_consts(OpSet='{"slice","num","flatten","localindex","pad","comb","samevalue"}',
+                            LeafSet=leafset(2 if q else 3), Classes=ALL_CLASSES, Axes="{-2,-1,0,1,2}", Targets="{0,2}", CombNs="{2}",
+                            SliceTuples="RandomSubset(%d, %s)" % (4 if q else 16, slice_tuples(0)))
+    r = ctx.tlc_phase("structure-ops-all-encodings", "Session", consts, invariants=["Closed"], seed_tlc=False,
+                      judge_fn=("replay", "judge_none"), record=("replay", "record_c02"),
+                      require_actions=["SliceOp", "PadOp", "FlattenOp", "WrapByteMasked", "WrapBitMasked", "WrapIndexed"])
+    pairs += _c02_groups(ctx, r.cases_path, "structure-ops-all-encodings")
+    consts = session_consts(OpSet='{"reduce","sort"}', LeafSet=REDUCE_LEAVES,
+                            Classes='{"ListOffset","List","IndexedOption","ByteMasked","BitMasked","Indexed"}' if q else ALL_CLASSES,
+                            Axes="{-2,-1,0}" if q else "{-3,-2,-1,0,1,2}",
+                            ReduceArgs="{[r |-> rr, mask |-> 0, kd |-> 0] : rr \\in {\"sum\", \"argmin\", \"argmax\", \"max\", \"count\"}}"
+                            if q else "AllReduceArgs",
+                            SortArgs="{[asc |-> 1, stable |-> 1, arg |-> 0], [asc |-> 0, stable |-> 1, arg |-> 1]}")
+    r = ctx.tlc_phase("reduce-sort-all-encodings", "Session", consts, invariants=["Closed"], seed_tlc=False,
+                      judge_fn=("replay", "judge_none"), record=("replay", "record_c02"),
+                      require_actions=["ReduceOp", "SortOp", "WrapByteMasked", "WrapBitMasked", "WrapIndexed", "WrapIndexedOption"])
+    pairs += _c02_groups(ctx, r.cases_path, "reduce-sort-all-encodings")
+    consts = session_consts(OpSet='{"concat","aux"}', LeafSet=MIXED_LEAVES, MaxDepth="1", Classes=ALL_CLASSES)
+    r = ctx.tlc_phase("concat-all-encodings", "Session", consts, invariants=["Closed"],
+                      judge_fn=("replay", "judge_none"), record=("replay", "record_c02"), require_actions=["ConcatOp"],
+                      max_cases=700000 if q else None)
+    pairs += _c02_groups(ctx, r.cases_path, "concat-all-encodings")
+    return ctx.finish(extra={"encoding_pairs_compared": pairs},
+                      rule="case = (layout, operation, arguments); cases are grouped by the library's own (type, to_list) of the input and "
+                           "every pair of distinct encodings in a group must give equal values and the same success-or-error outcome",
+                      assumptions=["index widths are rotated per case by the seed; SliceTuples sampling is NOT seeded per layout here "
+                                   "(same tuples for every layout, so that groups are comparable)"])
+
+
+RUNNERS["C02"] = run_C02
